@@ -141,6 +141,8 @@ let () =
         end in
       let key = if kind = "P" then f.(4) ^ "|" ^ f.(5) else String.concat "|" (Array.to_list (Array.sub f 4 (List.length operands))) in
       note_case key (List.exists (fun g -> not (is_empty g)) operands);
+      (* hypothesis of the lifted theorems (judge_everywhere ...): every ring is a closed vertex list *)
+      List.iter (fun g -> if not (rings_closed_b g) then failc "CORR" "operand_ring_not_closed" key) operands;
       let mag = magnitude operands in
       let tol = qmult mag tol_factor in
       let tol2 = qmult tol tol in
@@ -285,6 +287,7 @@ let () =
           match get n with
           | Some (Good (_, _, rs, _, moved)) ->
             count ("judged_" ^ n);
+            if not (rings_closed_b rs) then failc "SPEC" ("result_ring_not_closed_" ^ n) "a ring of the result is not a closed vertex list";
             count ("result_type_" ^ (match rs with
                 | GPoint _ -> "Point" | GLine _ -> "LineString" | GPoly _ -> "Polygon"
                 | GMPoint _ -> "MultiPoint" | GMLine _ -> "MultiLineString" | GMPoly _ -> "MultiPolygon"
